@@ -5,7 +5,6 @@ import (
 	"go/ast"
 	"go/constant"
 	"go/token"
-	"regexp"
 	"sort"
 	"strings"
 
@@ -77,64 +76,27 @@ func c11EscapeTables(c *Ctx) {
 	}
 	c.Fn(declName(wpkg, wfd))
 	c.Fn(declName(rpkg, rfd))
-	// writer table
-	wsw := findSwitchOn(wfd.Body, func(tag ast.Expr) bool { _, ok := tag.(*ast.Ident); return ok })
-	if wsw == nil {
-		c.CheckerFail("escape", "no switch over the rune in escapeQuotedStringLit")
+	// writer table, introducer arm, non-printable arm and hex widths, read from SSA (bytedom.go)
+	wfn := c.P.LookupFunc("hclwrite", "escapeQuotedStringLit")
+	if wfn == nil {
+		c.CheckerFail("escape", "anchor escapeQuotedStringLit does not resolve")
+		return
+	}
+	winfo := writerEscapes(wfn)
+	if !winfo.subjectOK {
+		c.CheckerFail("escape", "escapeQuotedStringLit does not range over its string parameter")
 		return
 	}
 	writer := map[rune][]rune{}
-	introducers := map[rune]bool{}
-	hasDefaultNonPrint := false
-	widths := map[string]int{}
-	var introArm *ast.CaseClause
-	for _, cs := range wsw.Body.List {
-		cc := cs.(*ast.CaseClause)
-		if cc.List == nil {
-			ast.Inspect(cc, func(n ast.Node) bool {
-				if call, ok := n.(*ast.CallExpr); ok {
-					if sel, ok := call.Fun.(*ast.SelectorExpr); ok && sel.Sel.Name == "IsPrint" {
-						hasDefaultNonPrint = true
-					}
-				}
-				if bl, ok := n.(*ast.BasicLit); ok && bl.Kind == token.STRING {
-					if m := regexp.MustCompile(`\\\\(u|U)%0(\d)x`).FindStringSubmatch(bl.Value); m != nil {
-						widths[m[1]] = int(m[2][0] - '0')
-					}
-				}
-				return true
-			})
-			continue
-		}
-		var chars []rune
-		for _, e := range cc.List {
-			if r, ok := charConst(wpkg, e); ok {
-				chars = append(chars, r)
-			}
-		}
-		var esc []rune
-		got := false
-		for _, st := range cc.Body {
-			ast.Inspect(st, func(n ast.Node) bool {
-				if call, ok := n.(*ast.CallExpr); ok && !got {
-					if bs, ok := appendedBytes(wpkg, call); ok {
-						esc, got = bs, true
-					}
-				}
-				return true
-			})
-		}
-		if got {
-			for _, ch := range chars {
-				writer[ch] = esc
-			}
-		} else {
-			for _, ch := range chars {
-				introducers[ch] = true
-			}
-			introArm = cc
-		}
+	for ch, esc := range winfo.table {
+		writer[rune(ch)] = []rune{rune(esc[0]), rune(esc[1])}
 	}
+	introducers := map[rune]bool{}
+	for ch := range winfo.introducers {
+		introducers[rune(ch)] = true
+	}
+	hasDefaultNonPrint := winfo.nonPrint
+	widths := winfo.widths
 	// reader table, read from SSA (bytedom.go)
 	reader := map[rune]rune{}
 	readerWidth := map[rune]int{}
@@ -177,39 +139,14 @@ func c11EscapeTables(c *Ctx) {
 			fmt.Sprintf("\\%s is written with %d hex digits but the reader requires a %d-byte escape", sel, digits, rw))
 	}
 	// introducer arm: writer doubles iff next byte is '{'
-	okIntro := introArm != nil && introducers['$'] && introducers['%']
-	if okIntro {
-		nAppend, hasBrace := 0, false
-		ast.Inspect(introArm, func(n ast.Node) bool {
-			if call, ok := n.(*ast.CallExpr); ok {
-				if id, ok := call.Fun.(*ast.Ident); ok && id.Name == "appendRune" {
-					nAppend++
-				}
-			}
-			if be, ok := n.(*ast.BinaryExpr); ok && be.Op == token.EQL {
-				if r, ok := charConst(wpkg, be.Y); ok && r == '{' {
-					hasBrace = true
-				}
-			}
-			return true
-		})
-		okIntro = nAppend == 2 && hasBrace
-	}
+	okIntro := introducers['$'] && introducers['%'] && len(introducers) == 2 && winfo.doubles
 	c.Check(okIntro, "escape.inverse", "hclwrite.escapeQuotedStringLit:introducer[$%]", wfd.Pos(), "doubled exactly before `{`",
 		"the `$`/`%` arm does not double the introducer exactly when the next byte is `{`: `${`/`%{` in a value would be read back as a template sequence, or plain `$` would be doubled")
 	// reader: slice[1] == slice[0] && slice[2] == '{'
 	readerUndoubles := false
-	ast.Inspect(rfd.Body, func(n ast.Node) bool {
-		be, ok := n.(*ast.BinaryExpr)
-		if !ok || be.Op != token.LAND {
-			return true
-		}
-		s := exprStr(be)
-		if strings.Contains(s, "slice[1] == slice[0]") && strings.Contains(s, "slice[2] == '{'") {
-			readerUndoubles = true
-		}
-		return true
-	})
+	if rfn := c.P.LookupFunc("hclsyntax", "ParseStringLiteralToken"); rfn != nil {
+		readerUndoubles = readerUndoubles1(rfn)
+	}
 	c.Check(readerUndoubles, "escape.inverse", "hclsyntax.ParseStringLiteralToken:undouble[$%]", rfd.Pos(), "`$${` and `%%{` are un-doubled",
 		"the reader does not un-double `$${` / `%%{`")
 	// R2 domain
@@ -294,33 +231,40 @@ func c11BareKeys(c *Ctx) {
 				continue
 			}
 			n++
-			// dominated by the true edge of ValidIdentifier(...)
-			guarded := false
-			var condBlock *ssa.BasicBlock
-			for d := b; d != nil; d = d.Idom() {
-				idom := d.Idom()
-				if idom == nil {
-					break
+			// the emission is reached only when ValidIdentifier holds and the key is none of the
+			// parser's keywords: decided by evaluating the branch conditions (through helpers) under
+			// every assignment of those atoms (E-condeval)
+			atoms := &condAtoms{pred: vi, strEq: map[string]string{}}
+			for _, kw := range keywords {
+				atoms.strEq[kw] = "K:" + kw
+			}
+			names := []string{"P"}
+			for _, kw := range keywords {
+				names = append(names, "K:"+kw)
+			}
+			validNeeded, kwReach := true, map[string]bool{}
+			for mask := 0; mask < 1<<len(names); mask++ {
+				atoms.assign = map[string]bool{}
+				for i, nm := range names {
+					atoms.assign[nm] = mask&(1<<i) != 0
 				}
-				iff, ok := idom.Instrs[len(idom.Instrs)-1].(*ssa.If)
-				if !ok || idom.Succs[0] != d {
+				if !atoms.run(fn, 0).reach[b] {
 					continue
 				}
-				if condCalls(iff.Cond, vi, map[ssa.Value]bool{}) {
-					guarded = true
-					condBlock = idom
+				if !atoms.assign["P"] {
+					validNeeded = false
+				}
+				for _, kw := range keywords {
+					if atoms.assign["K:"+kw] {
+						kwReach[kw] = true
+					}
 				}
 			}
-			c.Check(guarded, "barekey", FuncName(fn)+":bare-ident.valid", st.Pos(), "only under ValidIdentifier",
-				"a map/object key is emitted as a bare identifier without hclsyntax.ValidIdentifier deciding it: keys that are not identifiers for the parser (leading digit, dash, …) are emitted bare and read back as something else")
-			if guarded {
-				// keyword exclusion: the guard (or a dominating one) mentions each keyword
-				src := guardSource(c, fn, condBlock)
-				for _, kw := range keywords {
-					has := strings.Contains(src, "\""+kw+"\"") || strings.Contains(src, "Keyword")
-					c.Check(has, "barekey", FuncName(fn)+":bare-ident.keyword["+kw+"]", st.Pos(), "keyword excluded",
-						"the identifier `"+kw+"` is emitted as a bare key, but the parser reads `{ "+kw+" …` as the start of a "+kw+" expression: the generated object constructor does not parse")
-				}
+			c.Check(validNeeded, "barekey", FuncName(fn)+":bare-ident.valid", st.Pos(), "only under ValidIdentifier",
+				"a map/object key is emitted as a bare identifier on a path on which hclsyntax.ValidIdentifier has not accepted it: keys that are not identifiers for the parser (leading digit, dash, …) are emitted bare and read back as something else")
+			for _, kw := range keywords {
+				c.Check(!kwReach[kw], "barekey", FuncName(fn)+":bare-ident.keyword["+kw+"]", st.Pos(), "keyword excluded",
+					"the identifier `"+kw+"` is emitted as a bare key, but the parser reads `{ "+kw+" …` as the start of a "+kw+" expression: the generated object constructor does not parse")
 			}
 		}
 	}
